@@ -109,9 +109,9 @@ func tbParallel(env *TBEnv, c *Ctx, specs []*TBSpec, par int) []*TBResult {
 // overlapViolations: at every instant the summed reservations of running jobs must fit.
 func overlapViolations(ivs []tbInterval, cores, memGB float64) []string {
 	type ev struct {
-		t    int64
-		d    int
-		iv   *tbInterval
+		t  int64
+		d  int
+		iv *tbInterval
 	}
 	var evs []ev
 	for i := range ivs {
